@@ -12,6 +12,6 @@ CONSTANTS Kinds = {"plain"}
           CoreServers = {}
           Slice = 25
           Seed = 1
-          DesignAll = FALSE
+          DesignAll = TRUE
 INVARIANTS DesignOK Emit
 CHECK_DEADLOCK FALSE
